@@ -64,13 +64,6 @@ wide:
 	}
 }
 
-func stringAt(str stringObjecter, index int) rune {
-	if 0 <= index && index < str.Length() {
-		return str.At(index)
-	}
-	return utf8.RuneError
-}
-
 func (rt *runtime) newStringObject(value Value) *object {
 	str := newStringObject(value.string())
 
